@@ -73,7 +73,7 @@ uint8_t * jls_mrb_alloc(struct jls_mrb_s * self, uint32_t size) {
             // fits after wrap
             add_sz(p, 0xffffffffU);
             p = self->buf;
-        } else if (head == tail) {
+        } else if ((head == tail) && ((size + 9) < self->buf_size)) {
             // Big item, but buffer is empty.  Reset pointers to make room.
             self->head = 0;
             self->tail = 0;
